@@ -334,13 +334,14 @@ func runC04(c *Ctx) {
 	bufSize := 0
 	unjudged := map[*zsim.SimSink]bool{}
 	for b := 0; b < nBranch; b++ {
-		br := &c04branch{level: stdLevels[g.Weighted(4, 2, 2, 1)], console: g.Chance(4), kind: g.Draw(6), shares: -1}
-		if br.kind == 5 {
+		br := &c04branch{level: stdLevels[g.Weighted(4, 2, 2, 1)], console: g.Chance(4), kind: g.Draw(7), shares: -1}
+		if br.kind == 5 || br.kind == 6 {
 			// needs an earlier Lock(sink) branch to share with
+			want := br.kind
 			br.kind = 0
 			for pi, pb := range branches {
 				if pb.kind == 0 && !pb.flaky {
-					br.kind, br.shares = 5, pi
+					br.kind, br.shares = want, pi
 					break
 				}
 			}
@@ -376,6 +377,18 @@ func runC04(c *Ctx) {
 			other := branches[br.shares]
 			other.shared = true
 			br.ws = zap.CombineWriteSyncers(mk(fmt.Sprintf("b%d", b)), other.ws)
+		case 6:
+			// a buffered syncer in front of the locked syncer of another branch:
+			// the device holds the lines of both, written whole by each
+			other := branches[br.shares]
+			other.shared = true
+			size := pick(g, 16, 32, 64, 128, 256)
+			bufSize = size
+			br.bws = &zapcore.BufferedWriteSyncer{WS: other.ws, Size: size, FlushInterval: time.Second}
+			br.bws.Clock = clk.For(unsafe.Pointer(br.bws), unsafe.Sizeof(*br.bws))
+			br.ws = br.bws
+			tickers = append(tickers, br.bws)
+			r.Probe("buffered syncer in front of another branch's locked syncer")
 		case 4:
 			size := pick(g, 16, 32, 64, 128, 256)
 			bufSize = size
@@ -512,7 +525,7 @@ func runC04(c *Ctx) {
 	}
 	var desc []string
 	for b, br := range branches {
-		desc = append(desc, fmt.Sprintf("branch%d{>=%s console=%v fork=%d stack=%s}", b, br.level, br.console, br.fork, []string{"Lock(sink)", "Open(1)", "Open(2)", "Combine(2)", "Buffered", "Combine(own, the Lock(sink) of an earlier branch)"}[br.kind]))
+		desc = append(desc, fmt.Sprintf("branch%d{>=%s console=%v fork=%d stack=%s}", b, br.level, br.console, br.fork, []string{"Lock(sink)", "Open(1)", "Open(2)", "Combine(2)", "Buffered", "Combine(own, the Lock(sink) of an earlier branch)", "Buffered(the Lock(sink) of an earlier branch)"}[br.kind]))
 	}
 	c.Describe("%s frag=%d pool=%d tasks=%d syncTask=%v ticks<=%d caller=%v sharedDerived=%v forkedTees=%v policy=%s", strings.Join(desc, " "), frag, poolPol, nTasks, syncTask, tickBudget, withCaller, shared, forked, r.Policy)
 	for t, tk := range tasks {
